@@ -33,13 +33,17 @@ func ccSeen(c fiber.Ctx) string {
 	qerr := c.Bind().Query(&q)
 	var u bound
 	uerr := c.Bind().URI(&u)
+	var hb bound
+	herr := c.Bind().Header(&hb)
+	var cb bound
+	cerr := c.Bind().Cookie(&cb)
 	rd := c.Redirect()
 	_ = c.Render("obs", fiber.Map{})
 	view := string(c.Response().Body())
 	c.Response().ResetBody()
-	return fmt.Sprintf("params[a=%q b=%q *=%q] route=%q locals=%v who=%q q=%+v/%s uri=%+v/%s flash=%q old=%q view=%q xwho=%q accepts=%q",
-		c.Params("a"), c.Params("b"), c.Params("*"), c.Route().Path, ls, c.Get("X-Who"), q, errStr(qerr), u, errStr(uerr),
-		rd.Messages(), rd.OldInputs(), view, c.GetRespHeader("X-Who"), c.Accepts("text/html", "application/json", "text/plain"))
+	return fmt.Sprintf("params[a=%q b=%q *=%q] route=%q locals=%v who=%q q=%+v/%s uri=%+v/%s hdr=%+v/%s ck=%+v/%s flash=%q old=%q view=%q xwho=%q accepts=%q",
+		c.Params("a"), c.Params("b"), c.Params("*"), c.Route().Path, ls, c.Get("X-Who"), q, errStr(qerr), u, errStr(uerr), hb, errStr(herr), cb, errStr(cerr),
+		rd.Messages(), rd.OldInputs(), view, c.GetRespHeader("X-Who"), c.Accepts("text/html;level=1", "application/json;v=2", "text/plain")+"/"+c.AcceptsLanguages("en", "fr", "de")+"/"+c.AcceptsEncodings("gzip", "br"))
 }
 
 func ccBuildApp(cfg int) func() fasthttp.RequestHandler {
@@ -108,8 +112,8 @@ func runConcurrentMixes(r *core.Run) {
 	}
 	flash := "\x91\x84\xa3key\xa2k1\xa5value\xa5hello\xa5level\x00\xaaisOldInput\xc2"
 	reqs := []ccpair.Req{
-		{Name: "get-p1-alice", Make: mk("GET", "/p/first?name=alice&age=30&tags=x&tags=y", "alice", "", "", "Accept", "text/html")},
-		{Name: "get-p2-bob", Make: mk("GET", "/p/SECOND/two?name=bob&city=rome", "bob", "", "", "Accept", "application/json;q=0.9, text/plain")},
+		{Name: "get-p1-alice", Make: mk("GET", "/p/first?name=alice&age=30&tags=x&tags=y", "alice", "", "", "Accept", "text/html;level=1;q=0.7, text/plain;q=0.2", "Accept-Language", "fr;q=0.9, en;q=0.8", "X-Name", "h-alice", "X-Tags", "ha1,ha2", "Cookie", "name=c-alice; age=3")},
+		{Name: "get-p2-bob", Make: mk("GET", "/p/SECOND/two?name=bob&city=rome", "bob", "", "", "Accept", "application/json;v=2;q=0.9, text/plain;format=flowed", "Accept-Encoding", "br;q=0.5, gzip", "X-City", "h-bob-city", "Cookie", "city=c-bob")},
 		{Name: "get-wild-carol-flash", Make: mk("GET", "/w/some/long/tail", "carol", "", "", "Cookie", fiber.FlashCookieName+"="+flash)},
 		{Name: "post-bind-json-dave", Make: mk("POST", "/bind?name=q-dave", "dave", "application/json", `{"name":"dave","age":41,"tags":["t1","t2"],"city":"oslo"}`)},
 		{Name: "post-bind-form-erin", Make: mk("POST", "/bind", "erin", "application/x-www-form-urlencoded", "name=erin&age=7&tags=f1")},
